@@ -22,7 +22,10 @@ pub fn def() -> PropDef {
     }
 }
 
-const CLOSED_LEAVES: [&str; 45] = [
+const CLOSED_LEAVES: [&str; 48] = [
+    // long bracket strings: line breaks written CR LF count once, the one right after the opening bracket
+    // is skipped (only that one)
+    "[[a\r\nb]]", "[[\r\nab]]", "[[\n\nab]]",
     // multi-byte text (length counts bytes) and numbers that need more than 14 significant digits
     "\"h\\195\\169llo\"", "\"\\226\\134\\146\"", "0.30000000000000004", "0.3333333333333333", "66.66666666666666", "123456789012345.6", "1e21",
     "nil", "true", "false", "0", "1", "2", "3", "0.5", "0.1", "255", "1e15", "9007199254740993", "1e100", "1e308", "1e-7", "5e-324", "(-0)", "(1/0)", "(-1/0)", "(0/0)",
